@@ -405,6 +405,104 @@ def propagate_aliases(fnode):
     return total
 
 
+def propagate_subscript_aliases(fnode):
+    """N8b: `a = P[k]` with P a parameter that is never rebound and never stored into (`P[..] = ..`), k a plain name bound
+    exactly once, in the same block and before this statement, `a` bound exactly once, every use of `a` inside later
+    statements of that block: `a` is another name for the object `P[k]` -- every use of `a` reads `P[k]`, the assignment
+    disappears.  (The object is the same one, so in-place methods on `a` are in-place methods on `P[k]`.)"""
+    total = 0
+    COMPS_ = (ast.ListComp, ast.SetComp, ast.DictComp, ast.GeneratorExp)
+    for _round in range(6):
+        own, nested = _own_nodes(fnode)
+        if any(isinstance(n, (ast.Global, ast.Nonlocal)) for n in own):
+            return total
+        stores = {}
+        COMPS = (ast.ListComp, ast.SetComp, ast.DictComp, ast.GeneratorExp)
+
+        inside = {}
+        for c_ in ast.walk(fnode):
+            if isinstance(c_, COMPS):
+                for x_ in ast.walk(c_):
+                    if x_ is not c_:
+                        inside.setdefault(id(x_), []).append(c_)
+
+        def comp_scopes(n):
+            return inside.get(id(n), [])
+
+        def comp_targets(c):
+            return {x.id for g in c.generators for x in ast.walk(g.target) if isinstance(x, ast.Name)}
+        for n in own:
+            if isinstance(n, ast.Name) and isinstance(n.ctx, (ast.Store, ast.Del)):
+                if comp_scopes(n):
+                    continue          # a comprehension's own variable: its scope is the comprehension
+                stores.setdefault(n.id, []).append(n)
+            elif isinstance(n, ast.ExceptHandler) and n.name:
+                stores.setdefault(n.name, []).append(n)
+        nested_names, nested_stores = set(), set()
+        for sc in nested:
+            for x in ast.walk(sc):
+                if isinstance(x, ast.Name):
+                    nested_names.add(x.id)
+                    if isinstance(x.ctx, ast.Store) and not isinstance(sc, COMPS_):
+                        nested_stores.add(x.id)
+                elif isinstance(x, ast.arg):
+                    nested_names.add(x.arg)
+                    nested_stores.add(x.arg)
+        params = {a.arg for a in fnode.args.posonlyargs + fnode.args.args + fnode.args.kwonlyargs}
+        sub_stored = {x.value.id for x in own if isinstance(x, ast.Subscript) and isinstance(x.ctx, (ast.Store, ast.Del)) and isinstance(x.value, ast.Name)}
+        done = False
+        for block in _blocks(fnode):
+            for i, st in enumerate(block):
+                if not (isinstance(st, ast.Assign) and len(st.targets) == 1 and isinstance(st.targets[0], ast.Name)):
+                    continue
+                a, v = st.targets[0].id, st.value
+                if not (isinstance(v, ast.Subscript) and isinstance(v.value, ast.Name) and isinstance(v.slice, ast.Name)):
+                    continue
+                P, k = v.value.id, v.slice.id
+                if P not in params or stores.get(P) or P in sub_stored or P in nested_stores:
+                    continue
+                a_nested = any(isinstance(x, ast.Name) and x.id == a for sc in nested
+                               if not (isinstance(sc, COMPS_) and a in {y.id for g in sc.generators for y in ast.walk(g.target) if isinstance(y, ast.Name)})
+                               for x in ast.walk(sc))
+                if a in params or a_nested or len(stores.get(a, [])) != 1 or a in sub_stored:
+                    continue
+                if k in nested_stores or len(stores.get(k, [])) != (0 if k in params else 1):
+                    continue
+                if k not in params:
+                    kst = stores[k][0]
+                    # k is bound by an earlier statement of this very block (so once per cycle, before the alias)
+                    if not any(any(x is kst for x in ast.walk(b)) for b in block[:i]) or any(isinstance(b, (ast.For, ast.While)) and any(x is kst for x in ast.walk(b)) for b in block[:i]):
+                        continue
+                later = set()
+                for b in block[i + 1:]:
+                    for x in ast.walk(b):
+                        later.add(id(x))
+                uses = [x for x in own if isinstance(x, ast.Name) and x.id == a and isinstance(x.ctx, ast.Load)
+                        and not any(a in comp_targets(c) for c in comp_scopes(x))]
+                if not uses or not all(id(u) in later for u in uses):
+                    continue
+                if any({a, k, P} & comp_targets(c) for u in uses for c in comp_scopes(u)):
+                    continue
+                for u in uses:
+                    par = getattr(u, "parent", None)
+                    new = ast.Subscript(value=ast.Name(id=P, ctx=ast.Load()), slice=ast.Name(id=k, ctx=ast.Load()), ctx=ast.Load())
+                    ast.copy_location(new, u)
+                    ast.copy_location(new.value, u)
+                    ast.copy_location(new.slice, u)
+                    _replace(fnode, u, new)
+                del block[i]
+                if not block:
+                    block.append(ast.Pass())
+                total += 1
+                done = True
+                break
+            if done:
+                break
+        if not done:
+            return total
+    return total
+
+
 def loops_to_comprehensions(fnode):
     """N10:  L = [] ; for T in IT: L.append(E)   ->   L = [E for T in IT]
     when the loop body is that one statement, L is not read in E / IT, and the loop variables are not used
@@ -853,7 +951,7 @@ def normalize_module(tree, modname=None, foreign=None):
             for _k in range(3):
                 a_ = inline_temporaries(node)
                 c_ = split_tuple_assignments(node)
-                b_ = propagate_aliases(node)
+                b_ = propagate_aliases(node) + propagate_subscript_aliases(node)
                 d_ = unpack_literal_dicts(node)
                 n_inl += a_ + b_
                 if not (a_ or b_ or c_ or d_):
